@@ -125,7 +125,22 @@ def session(args):
                 send("ucinewgame")
             fen = rnd.choice(fens)
             legal, in_check = ref.legal(fen)
-            send("position fen " + fen)
+            if legal and rnd.random() < 0.3:
+                # the same thing said with a move list: 'position fen F0 moves m1..mk' (the oracle works on the resulting position)
+                f0, played = fen, []
+                for _ in range(rnd.randint(1, 4)):
+                    lg, _ic = ref.legal(fen)
+                    if not lg:
+                        break
+                    mv = rnd.choice(lg)
+                    ok, f2 = ref.apply(fen, [mv])
+                    if not ok:
+                        break
+                    played.append(mv); fen = f2
+                legal, in_check = ref.legal(fen)
+                send("position fen %s moves %s" % (f0, " ".join(played)) if played else "position fen " + f0)
+            else:
+                send("position fen " + fen)
             kind = rnd.choice(["depth", "depth", "depth", "nodes", "movetime", "clock", "mate", "infinite", "ponder"])
             slow = opts["MaxNPS"] and opts["MaxNPS"] <= 1000
             if kind == "depth":
@@ -150,7 +165,11 @@ def session(args):
             if legal and rnd.random() < 0.3:
                 k = 1 if rnd.random() < 0.4 else rnd.randint(1, min(len(legal), 6))
                 searchmoves = rnd.sample(legal, k)
-                go += " searchmoves " + " ".join(searchmoves)
+                sent = list(searchmoves)
+                if rnd.random() < 0.3:      # a GUI may list a move twice: the root move list must still hold it once
+                    sent += [rnd.choice(searchmoves) for _ in range(rnd.randint(1, 2))]
+                    rnd.shuffle(sent)
+                go += " searchmoves " + " ".join(sent)
             start = eng.nlines()
             send(go)
             if kind == "infinite":
